@@ -415,10 +415,50 @@ def h_confirm_many(ctx):
         shutil.rmtree(d, ignore_errors=True)
 
 
+RELEASED_PREKEY_TABLE = ("CREATE TABLE IF NOT EXISTS prekeys (_id INTEGER PRIMARY KEY AUTOINCREMENT,"
+                         "prekey_id INTEGER UNIQUE, sent_to_server BOOLEAN, record BLOB);")          # the table as released installations created it
+
+
+def h_existing_database(ctx):
+    """a key store file that an installation of the released version left behind (its prekeys table, keys stored without an upload flag,
+    some flagged as uploaded): opened by this tree, exactly the keys not flagged as uploaded count as pending; marking more as sent and
+    reopening keeps the bookkeeping"""
+    import sqlite3
+    from axolotl.util.keyhelper import KeyHelper
+    import yowsup.axolotl.store.sqlite.liteaxolotlstore as m
+    d = tempfile.mkdtemp(prefix="c14e_", dir=_TMP)
+    try:
+        path = os.path.join(d, "axolotl.db")
+        c = sqlite3.connect(path)
+        c.execute(RELEASED_PREKEY_TABLE)
+        recs = KeyHelper.generatePreKeys(1, 6)
+        sent = ctx.choice("already_uploaded", [(), (1, 2), (1, 2, 3, 4, 5, 6)])
+        for r in recs:
+            c.execute("INSERT INTO prekeys (prekey_id, record) VALUES(?,?)", (r.getId(), sqlite3.Binary(r.serialize())))
+        for i in sent:
+            c.execute("UPDATE prekeys SET sent_to_server = ? WHERE prekey_id = ?", (1, i))
+        c.commit()
+        c.close()
+        store = m.LiteAxolotlStore(path)
+        pending = sorted(r.getId() for r in store.preKeyStore.loadUnsentPendingPreKeys())
+        want = [r.getId() for r in recs if r.getId() not in sent]
+        obs = [("the keys the earlier installation never saw confirmed are pending (%s)" % pending, pending == want)]
+        if want:
+            store.preKeyStore.setAsSent(want[:1])
+            store.preKeyStore.dbConn.close()
+            store2 = m.LiteAxolotlStore(path)
+            obs.append(("after one more confirmation and a restart the rest is still pending", sorted(r.getId() for r in store2.preKeyStore.loadUnsentPendingPreKeys()) == want[1:]))
+            store2.preKeyStore.dbConn.close()
+        return obs
+    finally:
+        shutil.rmtree(d, ignore_errors=True)
+
+
 def cases(tier):
     q = tier == "quick"
     n = 6 if q else 9
-    cs = [dict(name="confirm[N keys in one upload]", fn=h_confirm_many, keep_samples=18), dict(name="kernel[adjustId]", fn=h_adjust_id), dict(name="kernel[flush_keys,symbolic key bytes]", fn=h_flush_keys, timeout_s=600)]
+    cs = [dict(name="existing-database[prekeys table of the released version]", fn=ST.deterministic("c14-existing")(h_existing_database) if hasattr(ST, "deterministic") else h_existing_database, keep_samples=6),
+          dict(name="confirm[N keys in one upload]", fn=h_confirm_many, keep_samples=18), dict(name="kernel[adjustId]", fn=h_adjust_id), dict(name="kernel[flush_keys,symbolic key bytes]", fn=h_flush_keys, timeout_s=600)]
     cs.append(dict(name="history[len<=%d]" % (n - 1), fn=h_history, args=(n - 1,), max_paths=400000, timeout_s=900 if q else 3400, keep_samples=8, weight=100))
     for third in ("server-asks-for-keys", "upload-result", "upload-error", "connection-loss", "restart"):
         cs.append(dict(name="history[prefix=connect+success+%s,len<=%d]" % (third, n + 1), fn=h_history, args=(n + 1, ("connect", "success", third)), max_paths=400000,
